@@ -124,6 +124,17 @@ func (m *machine) pickPool(t *rapid.T, kind string) int {
 				return 0
 			case x < 8 && len(early) > 0:
 				return rapid.SampledFrom(early).Draw(t, "pool")
+			case x == 8:
+				// the pools whose ids extend farm-1 (farm-10..): the same farmer in both probes prefix-keyed farmer records
+				var ext []int
+				for _, i := range good {
+					if i >= 9 {
+						ext = append(ext, i)
+					}
+				}
+				if len(ext) > 0 {
+					return rapid.SampledFrom(ext).Draw(t, "pool")
+				}
 			}
 		}
 		return rapid.SampledFrom(good).Draw(t, "pool")
